@@ -8,6 +8,7 @@ import (
 	"fmt"
 	"os"
 	"strings"
+	"sync"
 
 	saml2 "github.com/russellhaering/gosaml2"
 	dsig "github.com/russellhaering/goxmldsig"
@@ -127,4 +128,21 @@ func describeSP(sp *saml2.SAMLServiceProvider) map[string]any {
 		}
 	}
 	return m
+}
+
+var sharedSPs sync.Map
+
+// spFor returns the service provider for a case. On odd seeds it is a long-lived instance shared by
+// every case of the run with the same configuration key (and used from all driver goroutines at
+// once); on even seeds a fresh one. A correct library cannot tell the difference (C17); state kept
+// across calls, pooled buffers and caches can.
+func spFor(seed int64, key string, build func() *saml2.SAMLServiceProvider) *saml2.SAMLServiceProvider {
+	if seed%2 == 0 {
+		return build()
+	}
+	if v, ok := sharedSPs.Load(key); ok {
+		return v.(*saml2.SAMLServiceProvider)
+	}
+	v, _ := sharedSPs.LoadOrStore(key, build())
+	return v.(*saml2.SAMLServiceProvider)
 }
